@@ -314,6 +314,33 @@ def check(case):
             if not close(g5[i], val, rtol=1e-10, atol=atol):
                 out.fail('flux-reuse@%s' % ('widths' if pass_w else 'nowidths'),
                          'second native grid: bin %d got %r want %r' % (i, g5[i], val))
+        # ... and on the SAME native centres with other explicit widths / another spectrum / the first widths
+        # again: what is binned must follow the arguments of the current call only
+        out.applies('flux-reuse-widths')
+        shr = 0.35 + 0.6 * ((np.arange(n) * 0.6180339887498949) % 1.0)
+        for lab, ww, ff in (('narrowed', w * shr, f1), ('first-again', w, f1), ('other-spectrum', w * shr, f1[::-1].copy()),
+                            ('no-widths', None, f1)):
+            if ww is None:
+                if n < 2:
+                    continue
+                ww_ref = midpoint_widths(wn)[1]
+                # implied widths of unevenly spaced centres make centre +- w/2 bins that overlap each other:
+                # outside the property's domain (non-overlapping native bins)
+                if np.any((wn - ww_ref / 2)[1:] < (wn + ww_ref / 2)[:-1] * (1 - 1e-12)):
+                    continue
+            else:
+                ww_ref = ww
+            r6 = cut(out, 'flux-bindown', fb.bindown, wn[pn].copy(), ff[pn].copy(),
+                     grid_width=(ww[pn].copy() if ww is not None else None))
+            g6 = np.asarray(r6[1], dtype=float)
+            lo6, hi6 = wn - ww_ref / 2, wn + ww_ref / 2
+            for i in range(nt):
+                lo, hi = stc[i] - stw[i] / 2, stc[i] + stw[i] / 2
+                val, _, tot, idx, _ = overlap_mean(lo6, hi6, ff, lo, hi)
+                if tot <= 1e-9 * (hi - lo):
+                    continue
+                if not close(g6[i], val, rtol=1e-10, atol=atol):
+                    out.fail('flux-reuse-widths@%s' % lab, 'same centres, %s: bin %d got %r want %r' % (lab, i, g6[i], val))
     except CutError:
         pass
 
